@@ -17,6 +17,7 @@ import (
 	"github.com/free5gc/chf/pkg/factory"
 	vx "github.com/free5gc/chf/zzvx"
 	Nchf_ConvergedCharging "github.com/free5gc/openapi/chf/ConvergedCharging"
+	"github.com/free5gc/openapi/models"
 )
 
 // zzApp is the application object the server is wired to in the harness.
@@ -228,4 +229,83 @@ func ZZStartServer(cfg *factory.Config) (crashed bool) {
 	wg.Add(1)
 	s.startServer(&wg)
 	return app.terminated
+}
+
+// C12 through the API-layer handlers (path parameter and JSON body as the
+// router hands them over): a session is created through the create handler;
+// an update or release whose path parameter is NOT the session reference -
+// an arbitrary string, or the reference with one character percent-encoded
+// (an alias only for a handler that decodes the already decoded parameter) -
+// is answered 4xx and changes no record; the same request with the real
+// reference is answered 200 / 204.
+//
+//gosx:property=C12 tier=quick unwind=40 timeout=30000
+func ZZ_C12_ApiLayerSessionReference() {
+	ctx := chf_context.GetSelf()
+	ctx.RatingCfg = &sm.Settings{OriginHost: "chf-rating", OriginRealm: "realm"}
+	ctx.AbmfCfg = &sm.Settings{OriginHost: "chf-abmf", OriginRealm: "realm"}
+	ctx.Name, ctx.NfId, ctx.Url = "chf", "chf-nf-id", "http://chf.example"
+	factory.ChfConfig = &factory.Config{Configuration: &factory.Configuration{VolumeThresholdRate: 0.8,
+		RfDiameter:   &factory.Diameter{Protocol: "tcp", HostIPv4: "127.0.0.1", Port: 3868, Tls: &factory.Tls{Pem: "rf.pem", Key: "rf.key"}},
+		AbmfDiameter: &factory.Diameter{Protocol: "tcp", HostIPv4: "127.0.0.1", Port: 3869, Tls: &factory.Tls{Pem: "abmf.pem", Key: "abmf.key"}}}}
+	app := &zzApp{cfg: factory.ChfConfig, ctx: ctx, p: &processor.Processor{}}
+	s := &Server{ServerChf: app}
+	const supi = "imsi-208930000000777"
+	create := models.ChfConvergedChargingChargingDataRequest{SubscriberIdentifier: supi, ChargingId: 7,
+		NotifyUri:                "http://smf.example/notify",
+		NfConsumerIdentification: &models.ChfConvergedChargingNfIdentification{NFName: "SMF", NodeFunctionality: "SMF"}}
+	c0 := &gin.Context{}
+	vx.HTTPSetBody(c0, &create)
+	s.ChargingdataPost(c0)
+	vx.Assert("create through the API handler answered 201", vx.HTTPStatus(c0) == 201)
+	loc := vx.HTTPHeader(c0, "Location")
+	i := strings.LastIndex(loc, "/")
+	if vx.HTTPStatus(c0) != 201 || i < 0 {
+		return
+	}
+	ref := loc[i+1:]
+	ue, found := ctx.ChfUeFindBySupi(supi)
+	if !found {
+		vx.Fail("subscriber context exists")
+		return
+	}
+	usage := models.ChfConvergedChargingMultipleUnitUsage{RatingGroup: 1, UPFID: "upf",
+		UsedUnitContainer: []models.ChfConvergedChargingUsedUnitContainer{{QuotaManagementIndicator: models.QuotaManagementIndicator_OFFLINE_CHARGING, TotalVolume: 5}}}
+	req := models.ChfConvergedChargingChargingDataRequest{SubscriberIdentifier: supi,
+		MultipleUnitUsage: []models.ChfConvergedChargingMultipleUnitUsage{usage}}
+	// a path parameter that is not the reference
+	var other string
+	switch vx.Choice("other", 3) {
+	case 0:
+		other = vx.String("garbage", 3)
+	case 1:
+		other = "imsi%2D" + ref[5:] // '-' percent-encoded
+	default:
+		other = ref[:len(ref)-1] + "%3" + ref[len(ref)-1:] // last digit percent-encoded
+	}
+	vx.Assume(other != ref)
+	before := vx.Snapshot(ue)
+	c1 := &gin.Context{}
+	vx.HTTPSetBody(c1, &req)
+	vx.HTTPSetParam(c1, "ChargingDataRef", other)
+	release := vx.Choice("op", 2) == 1
+	if release {
+		s.ChargingdataChargingDataRefReleasePost(c1)
+	} else {
+		s.ChargingdataChargingDataRefUpdatePost(c1)
+	}
+	st := vx.HTTPStatus(c1)
+	vx.Assert("a request naming something else than the session reference is answered 4xx", st >= 400 && st <= 499)
+	vx.Assert("and leaves the subscriber's records as they were", vx.SameAs(before, ue))
+	// the real reference works
+	c2 := &gin.Context{}
+	vx.HTTPSetBody(c2, &req)
+	vx.HTTPSetParam(c2, "ChargingDataRef", ref)
+	if release {
+		s.ChargingdataChargingDataRefReleasePost(c2)
+		vx.Assert("release with the real reference answered 204", vx.HTTPStatus(c2) == 204)
+	} else {
+		s.ChargingdataChargingDataRefUpdatePost(c2)
+		vx.Assert("update with the real reference answered 200", vx.HTTPStatus(c2) == 200)
+	}
 }
